@@ -347,3 +347,36 @@ func BoundsBad(faces [][3]model3d.Coord3D) model3d.Coord3D {
 	}
 	return result
 }
+
+type shape struct{ v float64 }
+
+func (s shape) apply(t inv) shape { return s }
+
+// want:INVORDER undoing a composition member by member starts with the last member.
+func UndoForward(s shape, ts []inv) shape {
+	for _, t := range ts {
+		s = s.apply(t.Inverse())
+	}
+	return s
+}
+
+// clean:INVORDER
+func UndoBackward(s shape, ts []inv) shape {
+	for i := len(ts) - 1; i >= 0; i-- {
+		s = s.apply(ts[i].Inverse())
+	}
+	return s
+}
+
+// want:CANON the tip still uses the raw axis.
+func CanonCopyBad(axis vec, h float64) (vec, vec) {
+	dir := axis.Normalize()
+	return axis.Scale(h), dir.Scale(2)
+}
+
+// clean:CANON
+func CanonCopyGood(axis vec, h float64) (vec, vec) {
+	dir := axis.Normalize()
+	n := axis.Norm()
+	return dir.Scale(h), dir.Scale(n)
+}
